@@ -14,11 +14,11 @@ LayoutOK == (IsCirc /\ Has("layout")) => LayoutLegal(Rec.layout, Prog)
 \* C09: forward = the gates applied one at a time in the order they were added
 ForwardOK == IsCirc =>
     \A p \in 1..Len(Rec.probes) : LET pr == Rec.probes[p] IN
-        ("fwd" \in DOMAIN pr) => \A j \in 1..Len(pr.ins) : Dec(pr.fwd[j]) = Forward(Prog, Dec(pr.ins[j]))
+        ("fwd" \in DOMAIN pr) => Len(pr.fwd) = Len(pr.ins) /\ \A j \in 1..Len(pr.ins) : Dec(pr.fwd[j]) = Forward(Prog, Dec(pr.ins[j]))
 \* ... and the library's own gate-by-gate application agrees (localises a defect to gate vs circuit)
 SeqOK == IsCirc =>
     \A p \in 1..Len(Rec.probes) : LET pr == Rec.probes[p] IN
-        ("seq" \in DOMAIN pr) => \A j \in 1..Len(pr.ins) : Dec(pr.seq[j]) = Forward(Prog, Dec(pr.ins[j]))
+        ("seq" \in DOMAIN pr) => Len(pr.seq) = Len(pr.ins) /\ \A j \in 1..Len(pr.ins) : Dec(pr.seq[j]) = Forward(Prog, Dec(pr.ins[j]))
 \* compose() leaves its argument an independent circuit: after the composed circuit is extended further, the
 \* argument (the second half of the program) still acts as before
 OtherOK == (IsCirc /\ Has("other")) =>
@@ -32,7 +32,7 @@ RankOK == IsCirc =>
 \* the original value bitwise (strings, phases, and for states all 2N rows)
 BackwardOK == IsCirc =>
     \A p \in 1..Len(Rec.probes) : LET pr == Rec.probes[p] IN
-        ("bwd" \in DOMAIN pr) => \A j \in 1..Len(pr.ins) : Dec(pr.bwd[j]) = Backward(Prog, Dec(pr.ins[j]))
+        ("bwd" \in DOMAIN pr) => Len(pr.bwd) = Len(pr.ins) /\ \A j \in 1..Len(pr.ins) : Dec(pr.bwd[j]) = Backward(Prog, Dec(pr.ins[j]))
 RoundTripOK == IsCirc =>
     \A p \in 1..Len(Rec.probes) : LET pr == Rec.probes[p] IN
         /\ ("back" \in DOMAIN pr) => pr.back = pr.ins          \* backward(forward(x)) = x
